@@ -31,7 +31,8 @@ CLAIMED = {
             "symbolic whole-second observation instant up to TTL + 30 + 6: served and listed (Read-FDT over the wire) for at least the TTL, "
             "neither after TTL + grace without renewal, always with renewal, deletion takes effect at once, unregistration within grace; the "
             "device's own registration status follows.",
-            "Trusted: as C04 plus the UDP multiplexer shim (as tests/test_bvll FauxMultiplexer) and inet stand-ins; TTL <= 2 (8), whole seconds; "
+            "Trusted: as C04 plus the UDP multiplexer shim (as tests/test_bvll FauxMultiplexer) and inet stand-ins; TTL <= 2 (8) with every instant, "
+            "TTL 60 / 300 (255, 256) with windows of instants, whole seconds; "
             "partial distribution tables are outside (Annex J promises coverage only for full ones)."),
     "C14": ("6/C14", SX + "; differential against a reference scheduler (sorted list keyed by due time, installation order)",
             "The real TaskManager / core.run / core.run_once on a virtual clock: every operation sequence up to length 3 (quick) / 4 (thorough) "
@@ -62,7 +63,9 @@ CLAIMED = {
             "delay across timeouts, silence from any frame on) over every frame, with symbolic payload octets, the solver-explored paths "
             "show exactly one outcome of a legal kind with the request's invoke ID, delivered within the analytic time bound, and no "
             "transaction, timer, IOCB queue entry or further frame afterwards. Exhaustive inside the per-instance shape bounds "
-            "(payload lengths, window sizes, retry counts, one fault in quick / two in thorough); nothing outside.",
+            "(payload lengths, window sizes, retry counts, one fault in quick / two in thorough); nothing outside. One transition of a real "
+            "client / server transaction state machine from a symbolic state under an inductive invariant; IOCB queues and chains of "
+            "requests submitted from completion callbacks with symbolic fates.",
             "Trusted: CrossHair symbolic models, z3, the virtual clock/loop stubs of vf/world.py (zero processing time), the fault LAN of "
             "vf/netlab.py; max APDU 50/128 only; threads (IOCB.wait) not modelled."),
     "C05": ("6/C05", SCN + "; wire oracle through an independent clause 20.1 header decoder",
@@ -70,7 +73,8 @@ CLAIMED = {
             "octet-for-octet the submitted content on every path; on the wire sequence numbers are consecutive modulo 256, more-follows "
             "correct, outstanding segments never exceed the window in force; every single lost / duplicated / reordered frame (symbolic "
             "frame index) still ends in the service ack. Universal in content and fault position inside the instance bounds "
-            "(<= 5 segments, S = 50/128, windows 1..8).",
+            "(<= 5 segments, S = 50/128, windows 1..8; segment timeout 1.5 s and the library's default 5 s). One step of a sender from a "
+            "symbolic absolute position incl. the sequence-number wrap, and SSM.in_window on its whole domain.",
             "Trusted: as C04. More than 5 segments / sequence wrap-around and S >= 206 are outside the scenario harness."),
     "C06": ("6/C06", SCN.replace("stacks (application - ASAP - SMAP - NSAP - vlan)", "network layer (NSAP, NetworkServiceElement, NetworkAdapter) on vlan networks")
             + "; frames read with an independent clause 6.2 decoder; reference delivery function from the topology",
@@ -78,7 +82,9 @@ CLAIMED = {
             "destination (symbolic selectors) and symbolic payload: exactly the addressed stations receive, each once; the source shown "
             "to each recipient routes a reply back to the originator and nobody else; one frame per network on the path with hop count "
             "255 minus router hops; cold and warm caches; stations that do not know their network number. A cyclic topology shows "
-            "hop-count termination for symbolic initial counts.",
+            "hop-count termination for symbolic initial counts. One forwarding step of a three-port router from chosen cache states with "
+            "a symbolic NPDU (destination kind/network/MAC, optional SADR, hop count 0..255, arrival port) against the clause 6.5 "
+            "forwarding rule; bursts of three packets toward an undiscovered network.",
             "Trusted: as C04. Topologies other than the instantiated ones are outside; routing-protocol chatter in cyclic topologies is not part of the claim."),
     "C07": ("6/C07",
             SX + "; differential against a clause-20.1 reference layout",
@@ -111,14 +117,15 @@ CLAIMED = {
             "position and octet) of valid ReadProperty, WriteProperty, ReadPropertyMultiple, Who-Is and SubscribeCOV frames, delivered with a "
             "valid request queued at the same moment; symbolic noise at link level and, fed through one core.deferred() per datagram as "
             "UDPDirector does, at BVLL level: the concurrent valid request is answered correctly, no transaction, timer or deferred call is "
-            "left, and a later valid request is answered.",
-            "Trusted: as C04; parameter areas longer than 3 octets and two or more mutations per frame are outside; for reserved max-APDU codes "
-            "only the health clause is demanded."),
+            "left, and a later valid request is answered; garbage claiming to be relayed from a remote network does not divert the answer "
+            "to a request the real router relays afterwards.",
+            "Trusted: as C04; parameter areas longer than 3 octets and two or more mutations per frame are outside; a request with a reserved "
+            "max-APDU code must be refused once (abort or reject with its invoke ID)."),
     "C11": ("6/C11", SCN,
             "Invoke-ID allocation from a symbolic cursor (wrap-around without 256 requests) with symbolic peer choice and application-chosen "
             "IDs; one inbound reply of each kind with symbolic source and symbolic invoke ID against three live transactions with a forced "
             "cross-peer ID collision: only the transaction with equal (peer, ID) completes, every other ends by its own timeout, duplicates "
-            "are ignored; retransmitted requests are indicated once and equal IDs from two peers are answered separately.",
+            "are ignored; retransmitted requests (at once or a second apart) are indicated once and equal IDs from two peers are answered separately.",
             "Trusted: as C04. At most 6 outstanding requests / 3 peers; exhaustion of all 256 IDs toward one peer is outside."),
     "C12": ("6/C12", SCN + "; frame lengths and headers read with an independent decoder; expected outcome from reference arithmetic on clause 20.1 header sizes",
             "For capability pairs (max APDU, segmentation support, max segments, I-Am known or not) with symbolic proposed windows 1..127 and "
@@ -126,6 +133,18 @@ CLAIMED = {
             "only when accepted and within max-segments, requests only toward peers that can receive segments, windows stay in 1..127 and "
             "within the proposal, and the outcome (ack or abort) is the one the limits dictate.",
             "Trusted: as C04; the application feeds I-Am announcements into DeviceInfoCache.iam_device_info (bacpypes leaves that to the application)."),
+    "C15": ("6/C15", SCN + "; reply octets and object snapshots compared with a reference property store and reference encoders written from clauses 15.5/15.7/15.9/21",
+            "A device stack with ReadProperty/WriteProperty/ReadPropertyMultiple services holding scalar, array and list objects, and a "
+            "client stack: sequences of 1..2 (3) requests with symbolic opcode (read / write / read-multiple), target (declared, undeclared, "
+            "proprietary, Property_List, unknown object), array-index class (none, 0, 1..5 symbolic, 2^32-1), value (right type with "
+            "symbolic content, wrong primitive type, wrong element at a symbolic position, Null, none or two values) and priority: every "
+            "reply's octets equal the reference's, an acknowledged write is read back by ReadProperty and ReadPropertyMultiple, a refused "
+            "write names an applicable cause and leaves a deep snapshot of every property of every object unchanged, arrays answer "
+            "0 / 1..n / else as length / element / invalidArrayIndex, the all/required/optional selectors return exactly what ReadProperty "
+            "returns. At object level the same write/read-back/atomicity rules for every property with a value generator of 8 (all 63) "
+            "registered object types, as declared and as a writable clone.",
+            "Trusted: as C04 plus vf/ref/C15_ref.py. Outside: WritePropertyMultiple (no handler in the library), constructed values over the "
+            "wire, selectors combined with an array index, sequences longer than 3 requests, which of two applicable error causes is named."),
     "C16": ("6/C16", SCN + "; differential against a reference subscription table with last-reported value and burst accounting (clauses 13.1 / 13.14)",
             "A COV server stack with one monitored object (integer value with symbolic increment and values, analog value and pulse "
             "converter on dyadic values, binary and multi-state values) and 1..2 (3) subscriber stacks; timelines of 3 (5) steps with "
